@@ -6,6 +6,7 @@ import DaskModel.Model.Creation
 import DaskModel.Model.CreationFloat
 import DaskModel.Model.DiagonalNd
 import DaskModel.Model.CreationGrid
+import DaskModel.Model.CreationLikeIO
 import DaskModel.Model.Structural
 import DaskModel.Model.ShufflePlan
 import DaskModel.Model.ReshapeRechunk
@@ -1026,6 +1027,7 @@ def table : List (String × Handler) := [
   ("merge_full", hMergeFull), ("find_split", hFindSplit), ("find_merge", hFindMerge), ("plan", hPlan),
   ("rechunk_locate", hRechunkLocate), ("auto_chunks", hAutoChunks), ("auto_sound", hAutoSound),
   ("balance", hBalance)] ++ Dask.UniqueNaNIO.handlers
+  ++ Dask.CreationLike.handlers
   ++ Dask.PadEdge.handlers
 
 def main : IO Unit := runDriver table
